@@ -83,7 +83,7 @@ def run_tlc(module, cfg_path, workers=16, env=None, coverage=False, timeout=3600
             extra=(), heap='8g', simulate=None, depth=None):
     """run TLC on spec/<module>.tla with the given cfg; returns TLCResult"""
     meta = tempfile.mkdtemp(prefix='usimverif-tlc-')
-    cmd = ['java', '-XX:+UseParallelGC', '-Xmx' + heap, '-cp', JAR, 'tlc2.TLC',
+    cmd = ['java', '-XX:+UseParallelGC', '-Xmx' + heap, '-Djava.io.tmpdir=' + meta, '-cp', JAR, 'tlc2.TLC',
            '-workers', str(workers), '-metadir', meta, '-noGenerateSpecTE',
            '-config', cfg_path]
     if coverage:
